@@ -1,5 +1,6 @@
 import MemcVerif.Proofs.Cmds
 import MemcVerif.Proofs.Decimal
+import MemcVerif.Model.Policy
 /-!
 # C07 — counters: arithmetic, creation and error rules
 
@@ -93,6 +94,78 @@ theorem C07_no_create (s : MemStore) (now : Nat) (k : Key) (hd : Meta) (d i : Na
   rcases hg : s.get now k with ⟨s', res⟩
   rw [hg] at h2 h3; simp only at h2 h3; subst h2
   simp [hexp, h3]
+
+/-! ## Under the eviction policy
+
+The counter rules do not depend on memory: whatever the limit (also one below a single record), the accounted usage and
+the victims the request's own eviction takes, the policy never turns an incr/decr into a failure — it has no 'out of
+memory' answer, and its eviction loop only removes items. -/
+
+/-- the eviction loop never touches the CAS counter -/
+theorem evictLoop_casId (value : Nat) (tape : List Key) (p : Policy) (u : Nat) :
+    (Policy.evictLoop value tape p u).inner.casId = p.inner.casId := by
+  induction tape generalizing p u with
+  | nil => unfold Policy.evictLoop; split <;> (try split) <;> rfl
+  | cons v rest ih =>
+    unfold Policy.evictLoop
+    by_cases hg : u > p.limit
+    · simp only [hg, if_true]
+      by_cases he : p.inner.len = 0
+      · simp [he]
+      · simp only [he, if_false]
+        cases hl : p.inner.mem.lookup v with
+        | none => rfl
+        | some r => simp only; rw [ih]
+    · simp [hg]
+
+/-- a store without CAS behind the policy is always acknowledged, with the next CAS, and its record is in the store
+    afterwards — for every limit, usage and tape of victims -/
+theorem policy_set_cas0 (p : Policy) (now : Nat) (k : Key) (r : Record) (h : r.header.cas = 0) :
+    (p.set now k r).2 = .ok p.inner.casId ∧
+    (p.set now k r).1.inner.mem.lookup k = some (stamp r p.inner.casId now) := by
+  have hc : (p.incrMemUsage r.len).inner.casId = p.inner.casId := by
+    unfold Policy.incrMemUsage; exact evictLoop_casId _ _ _ _
+  simp only [Policy.set]
+  rw [set_cas0 _ _ _ _ h]
+  simp [hc, Mem.lookup_insert_self]
+
+/-- **incr/decr on an absent key create the item under any memory limit** (unless the expiration field forbids it) -/
+theorem C07_create_under_policy (p : Policy) (now : Nat) (k : Key) (hd : Meta) (d i : Nat) (inc : Bool)
+    (h : p.inner.vis now k = none) (hexp : hd.ttl ≠ 0xffffffff) :
+    (Cmd.addDelta polOps p now hd k d i inc).2 = .ok ⟨p.inner.casId, i⟩ ∧
+    (Cmd.addDelta polOps p now hd k d i inc).1.inner.mem.lookup k = some ⟨⟨now, p.inner.casId, 0, hd.ttl⟩, toDec i⟩ := by
+  obtain ⟨h2, _⟩ := get_vis_none h
+  have hc := get_casId p.inner now k
+  simp only [Cmd.addDelta, polOps, Policy.get]
+  rcases hg : p.inner.get now k with ⟨s', res⟩
+  rw [hg] at h2 hc; simp only at h2 hc; subst h2
+  simp only [hexp, ne_eq, not_false_eq_true, if_true]
+  have hs := policy_set_cas0 { p with inner := s' } now k (Record.new (toDec i) 0 0 hd.ttl) (by simp [Record.new, Meta.new])
+  rcases hx : Policy.set { p with inner := s' } now k (Record.new (toDec i) 0 0 hd.ttl) with ⟨p', res'⟩
+  rw [hx] at hs; simp only at hs
+  obtain ⟨hs1, hs2⟩ := hs
+  subst hs1
+  simp [hs2, hc, stamp, Record.new, Meta.new]
+
+/-- **… and update a numeric item under any memory limit**: same result and stored text as without a policy, even when
+    the request's own eviction takes the item between the read and the write -/
+theorem C07_update_under_policy (p : Policy) (now : Nat) (k : Key) (hd : Meta) (d i v : Nat) (inc : Bool) (x : Record)
+    (h : p.inner.vis now k = some x) (hp : parseU64 x.value = some v) (hc0 : hd.cas = 0) :
+    let v' := if inc then (v + d) % U64 else if d > v then 0 else v - d
+    (Cmd.addDelta polOps p now hd k d i inc).2 = .ok ⟨p.inner.casId, v'⟩ ∧
+    (Cmd.addDelta polOps p now hd k d i inc).1.inner.mem.lookup k
+      = some ⟨⟨now, p.inner.casId, x.header.flags, hd.ttl⟩, toDec v'⟩ := by
+  intro v'
+  have hg := get_vis_some h
+  simp only [Cmd.addDelta, polOps, Policy.get, hg, hp]
+  have hs := policy_set_cas0 p now k ⟨{ hd with flags := x.header.flags }, toDec v'⟩ (by simp [hc0])
+  rcases hx : Policy.set p now k ⟨{ hd with flags := x.header.flags }, toDec v'⟩ with ⟨p', res'⟩
+  rw [hx] at hs; simp only at hs
+  obtain ⟨hs1, hs2⟩ := hs
+  subst hs1
+  simp only [v'] at hx hs2 ⊢
+  refine ⟨trivial, ?_⟩
+  rw [hs2]; rfl
 
 example : parseU64 (toDec 18446744073709551615) = some 18446744073709551615 := by decide
 example : parseU64 [43, 53] = some 5 := by decide            -- "+5": accepted by the code's parser
